@@ -47,7 +47,7 @@ def run(ctx):
     quick = ctx.tier == "quick"
     pool_d, pool_e = pools(sf, rng)
     M = ApiModel(ctx, sf)
-    for h in range(300 if quick else 4000):
+    for h in range(300 if quick else 15000):
         M.reset()
         ca = getattr(sf.get_semantic_robust_alphabet, "cache_clear", None)
         if ca:
